@@ -104,10 +104,12 @@ impl TlsHandshaker {
         let config = self.client_config()?;
         let mut session = ClientConnection::new(config, domain)?;
 
-        while let Err(err) = session.complete_io(&mut stream) {
-            if err.kind() != io::ErrorKind::WouldBlock || !session.is_handshaking() {
-                return Err(err.into());
+        if let Err(err) = session.complete_io(&mut stream) {
+            // The stream is blocking: it only reports WouldBlock when its read timeout expired.
+            if err.kind() == io::ErrorKind::WouldBlock {
+                return Err(io::Error::from(io::ErrorKind::TimedOut).into());
             }
+            return Err(err.into());
         }
 
         Ok(TlsStream {
